@@ -52,7 +52,12 @@ def run(repo, tier, out):
                         st["sat"] += 1
                         h.violations.append({"harness": h.name, "label": label, "kind": "assert", "model": {}, "detail": detail[:900], "concrete_check": "reproduced",
                                              "concrete_detail": {"default": ds, feat: fs}, "sql_replayed_on_postgres": False})
-                core = lambda l: [s for s in l if not is_moves(s) and not is_lock(s)]
+                def canon(stmt):
+                    # the store builds some lists from Go maps (GetBalances' OR branches, VALUES tuples): their order is
+                    # not part of the statement's meaning; compare the skeleton and the multiset of innermost groups
+                    groups = re.findall(r"\([^()]*\)", stmt)
+                    return re.sub(r"\([^()]*\)", "()", stmt), sorted(groups)
+                core = lambda l: [canon(s) for s in l if not is_moves(s) and not is_lock(s)]
                 verdict(f"C35:write-statements-do-not-depend-on-the-configuration@{feat}", core(ds) == core(fs), f"{name} alone={alone}")
                 if name.startswith("CommitTransaction") and any(is_moves(s) for s in ds):
                     verdict(f"C35:moves-are-inserted-iff-MOVES_HISTORY-is-ON@{feat}", any(is_moves(s) for s in fs) == moves_on, f"{name} alone={alone}")
